@@ -330,6 +330,7 @@ func (l *int32LeafNode) unlock() { l.mutex.Unlock() }
 type Int32Tree struct {
 	root  int32Node
 	order int
+	mutex sync.Mutex // guards root; held only until the root node is locked
 }
 
 // NewInt32Tree returns a newly initialized Int32Tree of the specified
@@ -349,6 +350,8 @@ func NewInt32Tree(order int) (*Int32Tree, error) {
 
 // Delete removes the key-value pair from the tree.
 func (t *Int32Tree) Delete(key int32) {
+	t.mutex.Lock()
+	defer t.mutex.Unlock()
 	t.root.lock()
 	defer t.root.unlock()
 
@@ -367,6 +370,7 @@ func (t *Int32Tree) Delete(key int32) {
 // Insert inserts the key-value pair into the tree, replacing the existing value
 // with the new value if the key is already in the tree.
 func (t *Int32Tree) Insert(key int32, value interface{}) {
+	t.mutex.Lock()
 	n := t.root
 	n.lock()
 
@@ -389,6 +393,7 @@ func (t *Int32Tree) Insert(key int32, value interface{}) {
 			n = right
 		}
 	}
+	t.mutex.Unlock()
 
 	for n.isInternal() {
 		parent := n.(*int32InternalNode)
@@ -466,8 +471,10 @@ func (t *Int32Tree) Insert(key int32, value interface{}) {
 func (t *Int32Tree) Search(key int32) (interface{}, bool) {
 	var value interface{}
 	var ok bool
+	t.mutex.Lock()
 	n := t.root
 	n.lock()
+	t.mutex.Unlock()
 	for n.isInternal() {
 		parent := n.(*int32InternalNode)
 		child := parent.children[int32SearchLessThanOrEqualTo(key, parent.runts)]
@@ -496,6 +503,7 @@ func (t *Int32Tree) Search(key int32) (interface{}, bool) {
 // returns, the key will exist in the tree with the new value returned by the
 // callback function.
 func (t *Int32Tree) Update(key int32, callback func(interface{}, bool) interface{}) {
+	t.mutex.Lock()
 	n := t.root
 	n.lock()
 
@@ -518,6 +526,7 @@ func (t *Int32Tree) Update(key int32, callback func(interface{}, bool) interface
 			n = right
 		}
 	}
+	t.mutex.Unlock()
 
 	for n.isInternal() {
 		parent := n.(*int32InternalNode)
@@ -602,8 +611,10 @@ func (t *Int32Tree) Update(key int32, callback func(interface{}, bool) interface
 // of the locked node. The leaf node is only unlocked either by closing the
 // Cursor, or after all key-value pairs have been visited using Scan.
 func (t *Int32Tree) NewScanner(key int32) *Int32Cursor {
+	t.mutex.Lock()
 	n := t.root
 	n.lock()
+	t.mutex.Unlock()
 	for n.isInternal() {
 		parent := n.(*int32InternalNode)
 		child := parent.children[int32SearchLessThanOrEqualTo(key, parent.runts)]
